@@ -463,7 +463,7 @@ func init() {
 				}
 			}
 			// random larger graphs, mostly acyclic (edges j<i) with a few back edges
-			for i := 0; i < tierN(tier, 600, 6000); i++ {
+			for i := 0; i < tierN(tier, 3000, 30000); i++ {
 				n := 5 + rng.Intn(5)
 				sp := rpSpec{}
 				for a := 0; a < n; a++ {
@@ -483,7 +483,7 @@ func init() {
 				cs = append(cs, fw.MkCase("C07", "random-large", fw.SubSeed(seed, i), sp))
 			}
 			// selections on acyclic graphs, run with simulated commands
-			for i := 0; i < tierN(tier, 700, 8000); i++ {
+			for i := 0; i < tierN(tier, 4000, 40000); i++ {
 				n := 2 + rng.Intn(4)
 				sp := rpSpec{Run: true, Loads: 1}
 				hasDependents := map[string]bool{}
